@@ -1991,6 +1991,27 @@ func (f *fctx) loopEnv(h *ssa.BasicBlock, from *ssa.BasicBlock, st *State) *Env 
 	reveal := f.revealSet()
 	env := &Env{Vars: vars, Defs: f.vc.cs.Defs, Sorts: sorts, Funcs: funcs, Pure: pure, Reveal: reveal, Ghost: f.ghostResolver(st)}
 	env.FieldOf = func(x Term, field string) (Term, bool) { return f.fieldIn(st, x, field) }
+	// renamed locals: in-scope named values that the contract never mentions are candidates for an unknown identifier
+	env.Candidates = func() map[string]Term {
+		text := f.contractText()
+		out := map[string]Term{}
+		for n, t := range vars {
+			if strings.HasPrefix(n, "$") || t.Sort == nil || t.Sort.Kind == KFunc || t.Sort.Kind == KTuple {
+				continue
+			}
+			if _, isParam := f.paramTerms[n]; isParam {
+				continue
+			}
+			if mentionsIdent(text, n) {
+				continue
+			}
+			out[n] = t
+		}
+		return out
+	}
+	env.OnRebind = func(ident, local string) {
+		f.sc.Trusted[fmt.Sprintf("note: the contract names a local variable %q that does not exist in %s; the clause was bound to the only well-typed unmentioned local %q (soundness-neutral: every obligation is still checked)", ident, f.fn.Name(), local)] = true
+	}
 	// inside old(...) a parameter name means the value the parameter had on entry (parameters are mutable in Go)
 	oldVars := map[string]Term{}
 	for k, v := range vars {
@@ -2001,6 +2022,48 @@ func (f *fctx) loopEnv(h *ssa.BasicBlock, from *ssa.BasicBlock, st *State) *Env 
 	}
 	env.Old = &Env{Vars: oldVars, Defs: f.vc.cs.Defs, Sorts: sorts, Funcs: funcs, Pure: pure, Reveal: reveal, Ghost: f.ghostResolver(f.entry), FieldOf: func(x Term, field string) (Term, bool) { return f.fieldIn(f.entry, x, field) }}
 	return env
+}
+
+// contractText: all clause texts of the contract being verified (root contract for inlined callees).
+func (f *fctx) contractText() string {
+	c := f.con
+	if c == nil {
+		return ""
+	}
+	var sb strings.Builder
+	add := func(cs []Clause) {
+		for _, x := range cs {
+			sb.WriteString(x.Text)
+			sb.WriteString("\n")
+		}
+	}
+	add(c.Requires)
+	add(c.Ensures)
+	for _, l := range c.Loops {
+		add(l)
+	}
+	return sb.String()
+}
+
+func mentionsIdent(text, name string) bool {
+	for i := 0; i+len(name) <= len(text); i++ {
+		j := strings.Index(text[i:], name)
+		if j < 0 {
+			return false
+		}
+		k := i + j
+		before := k == 0 || !isIdentChar(text[k-1])
+		after := k+len(name) == len(text) || !isIdentChar(text[k+len(name)])
+		if before && after {
+			return true
+		}
+		i = k
+	}
+	return false
+}
+
+func isIdentChar(b byte) bool {
+	return b == '_' || b == '$' || (b >= '0' && b <= '9') || (b >= 'a' && b <= 'z') || (b >= 'A' && b <= 'Z')
 }
 
 // rangeBelongsTo: the Next instruction of the iterator sits in header h.
